@@ -4,6 +4,7 @@
 //!   VREC_SCRIPT  optional file: JSON array of outcomes, the k-th invocation (0-based, counted
 //!                by the lines already in the log) takes outcome k: n = exit status n,
 //!                1000+s = kill self with signal s; missing entries mean 0
+//!   VREC_SLEEP_MS  optional: sleep that long after logging (the log line carries the start time "t")
 //!   VREC_MODE    "full" (default): {"a":[hex argv[1..]], "cwd":hex}
 //!                "sum": {"n":argc-1,"bytes":sum of len+1,"first":hex,"last":hex,"h":fnv over all args,
 //!                        "envc":count,"envbytes":sum of len+1, "maxlen":longest}
@@ -58,11 +59,15 @@ fn main() {
         )
     } else {
         let a: Vec<String> = args.iter().map(|a| format!("\"{}\"", hex(a))).collect();
-        format!("{{\"a\":[{}],\"cwd\":\"{}\"}}\n", a.join(","), hex(&cwd))
+        let t = std::time::SystemTime::now().duration_since(std::time::UNIX_EPOCH).unwrap();
+        format!("{{\"a\":[{}],\"cwd\":\"{}\",\"t\":[{},{}]}}\n", a.join(","), hex(&cwd), t.as_secs(), t.subsec_nanos())
     };
     let mut f = std::fs::OpenOptions::new().create(true).append(true).open(&log).expect("vrec log");
     f.write_all(line.as_bytes()).expect("vrec write");
     drop(f);
+    if let Some(ms) = std::env::var("VREC_SLEEP_MS").ok().and_then(|m| m.parse::<u64>().ok()) {
+        std::thread::sleep(std::time::Duration::from_millis(ms));
+    }
     let mut outcome: i64 = 0;
     if let Some(sp) = std::env::var_os("VREC_SCRIPT") {
         if let Ok(txt) = std::fs::read_to_string(sp) {
